@@ -24,7 +24,7 @@ type Opts struct {
 var AllFeatures = []string{
 	"async", "err", "multi", "bind", "struct", "value", "sets", "lit", "ext", "ctxparam",
 	"composite", "basic", "args", "unneeded", "multi-inj", "multi-file", "dupparam",
-	"generic", "variadic", "variadic-functype", "want-unsupplied", "kalias", "extalias", "value-and-pointer", "rewrap", "struct-both-forms", "alias-basic", "ctx-provider", "implements-error", "adv-pkg-shadowed-by-later-decl", "value-literal", "multi-var-sets", "ext-method-value", "err-alias", "set-ref-paren", "set-decl-paren", "set-alias-var", "elem-paren", "elem-hoisted-var", "inject-spelling", "prov-func-var",
+	"generic", "variadic", "variadic-functype", "want-unsupplied", "kalias", "extalias", "value-and-pointer", "rewrap", "struct-both-forms", "alias-basic", "ctx-provider", "implements-error", "adv-pkg-shadowed-by-later-decl", "value-literal", "multi-var-sets", "ext-method-value", "err-alias", "arg-ext-type", "arg-hidden-ext", "set-ref-paren", "set-decl-paren", "set-alias-var", "elem-paren", "elem-hoisted-var", "inject-spelling", "prov-func-var",
 	"async-struct", "ptrrecv", "aiface", "embedded",
 }
 
@@ -65,6 +65,7 @@ type gen struct {
 	pending  map[TypeID]bool
 	roots    int // the first `roots` units take no provided inputs (fork), the last unit joins
 	errAliasDeclared bool
+	hiddenArg map[TypeID]bool // argument types of the hidden external package (only ext providers may take them)
 	wide     bool // fan shape: every inner unit takes at most one of the first supplied types, the last unit joins all
 }
 
@@ -240,7 +241,7 @@ func (g *gen) ensureExt() *Ext {
 			g.c.AddFeature("adv-pkg-util-twice")
 		}
 	}
-	if len(g.c.Exts) > 1 && rapid.Bool().Draw(g.rt, "whichext") {
+	if len(g.c.Exts) > 1 && !g.c.Exts[1].Hidden && rapid.Bool().Draw(g.rt, "whichext") {
 		return &g.c.Exts[1]
 	}
 	return &g.c.Exts[0]
@@ -550,7 +551,7 @@ func Gen(rt *rapid.T, o Opts) *Case {
 	if o.MaxFiles == 0 {
 		o.MaxFiles = 1
 	}
-	g := &gen{rt: rt, c: &Case{}, o: o, used: map[string]bool{}, nameSeq: map[string]int{}, supplierUnit: map[TypeID]int{}, basicsUsed: map[string]bool{}, consumed: map[TypeID]bool{}, pending: map[TypeID]bool{}, bundle: map[TypeID][]TypeID{}}
+	g := &gen{rt: rt, c: &Case{}, o: o, used: map[string]bool{}, nameSeq: map[string]int{}, supplierUnit: map[TypeID]int{}, basicsUsed: map[string]bool{}, hiddenArg: map[TypeID]bool{}, consumed: map[TypeID]bool{}, pending: map[TypeID]bool{}, bundle: map[TypeID][]TypeID{}}
 	g.c.Types = []Type{{ID: 0, Kind: "none"}}
 	if g.want("kalias", "kalias", 10) {
 		g.c.KAlias = "ksk"
@@ -719,12 +720,45 @@ func (g *gen) genUnit(i int) {
 			}
 			t = CtxType
 		default:
+			if extForm && g.allow("args") && g.want("arg-hidden-ext", "arghidden", 35) {
+				// the provider of an external package takes a value of ANOTHER external package that
+				// the user package itself never imports and whose name is that of the first one:
+				// nobody supplies it, so it becomes an injector argument
+				h := g.c.Ext("exth")
+				if h == nil {
+					base := g.c.Ext(p.Pkg)
+					g.c.Exts = append(g.c.Exts, Ext{Key: "exth", Path: "hidden/" + base.Name, Name: base.Name, Alias: base.Name + "H", Hidden: true})
+					h = g.c.Ext("exth")
+				}
+				s := g.newStruct("exth", false)
+				t = s
+				if rapid.Bool().Draw(g.rt, "arghiddenptr") {
+					t = g.addType(Type{Kind: KPtr, Elem: s})
+				}
+				g.argTypes = append(g.argTypes, t)
+				g.hiddenArg[t] = true
+				g.c.AddFeature("args")
+				break
+			}
 			if extForm || !g.allow("args") {
 				continue
 			}
 			g.c.AddFeature("args")
 			if len(g.argTypes) > 0 && rapid.Bool().Draw(g.rt, "reusearg") {
 				t = g.argTypes[rapid.IntRange(0, len(g.argTypes)-1).Draw(g.rt, "argidx")]
+				if g.hiddenArg[t] {
+					continue
+				}
+			} else if g.allow("ext") && g.want("arg-ext-type", "argext", 22) {
+				// an injector argument whose type lives in another package: the declaration file
+				// need not import that package at all (only the provider's file does)
+				e := g.ensureExt()
+				s := g.newStruct(e.Key, false)
+				t = s
+				if rapid.Bool().Draw(g.rt, "argextptr") {
+					t = g.addType(Type{Kind: KPtr, Elem: s})
+				}
+				g.argTypes = append(g.argTypes, t)
 			} else {
 				t = g.freshArgType()
 				g.argTypes = append(g.argTypes, t)
